@@ -268,6 +268,21 @@ def build_alphabet(ga: dict, tier: str = "thorough"):
     add("iban-pl-bic-then-fields", lambda: (I("PL61109010140000071219812874").bic,
                                             I("PL61109010140000071219812874").bank_code,
                                             I("SI56263300012039086").bic, I("SI56263300012039086").bank_code), True)
+    # ---- banks whose registry texts are unusual (leading / trailing / doubled blanks, non-ASCII):
+    # reading them must leave the registry as it is
+    odd = []
+    for (cc_o, code_o), es in sorted(lookup.by_key().items()):
+        nm = es[0].get("name", "")
+        kind = ("blank-edge" if nm != nm.strip() else "double-blank" if "  " in nm else
+                "non-ascii" if not nm.isascii() else None)
+        if kind and kind not in [k for k, _, _ in odd] and c12_build(cc_o, code_o):
+            odd.append((kind, cc_o, code_o))
+        if len(odd) == 3:
+            break
+    for kind, cc_o, code_o in odd:
+        t_o = c12_build(cc_o, code_o)
+        add(f"bank-with-{kind}-name-iban-views", (lambda t=t_o: (I(t).bank_name, I(t).bank_short_name, I(t).bank,
+                                                                 I(t).bic and I(t).bic.bank_names)))
     # ---- objects handed to further calls must come back unchanged (checked inside the operation)
     add("keeps-bban-handed-to-from_bban-of-another-country", keeps(
         lambda: I("LT121000011101001000").bban,
